@@ -1,0 +1,175 @@
+//go:build verif
+
+// Contracts for package routing, checked by /verif/govc. Compiled only with
+// -tags verif.
+
+package routing
+
+import (
+	"math/bits"
+	"net/netip"
+
+	"github.com/slackhq/nebula/firewall"
+)
+
+var (
+	_ netip.Addr
+	_ firewall.Packet
+)
+
+// ---- contract vocabulary (evaluated symbolically by govc) ----
+
+func old[T any](x T) T                  { return x }
+func implies(a, b bool) bool            { return !a || b }
+func forall[T any](f func(T) bool) bool { return true }
+func exists[T any](f func(T) bool) bool { return true }
+func elems[T any](s []T, r ...int) bool { return true }
+
+// =====================================================================
+// C40 — multipath routing is deterministic and weight-proportional
+// =====================================================================
+//
+// Hash-threshold mapping, stated independently of the code's 64-bit
+// arithmetic: gateway j owns the hash values up to
+//   specBucket(j) = round(W_j * 2^31 / T) - 1,   W_j = w_0 + ... + w_j,  T = W_{n-1},
+// computed exactly (128-bit intermediate). Consecutive bounds differ by the
+// gateway's share w_j * 2^31 / T up to rounding, the last bound is 2^31-1, and
+// the bounds never decrease, so "first gateway whose bound is >= hash" is a
+// partition of the whole hash space.
+
+//@ func specSum
+//@   recursive
+//@ func specRound31
+//@   opaque
+//@ func specBucket
+//@   pure
+//@ func specHash
+//@   pure
+//@ func specWeightsOK
+//@   pure
+
+// specSum: w_0 + ... + w_{n-1}.
+func specSum(g []Gateway, n int) int {
+	if n <= 0 {
+		return 0
+	}
+	return specSum(g, n-1) + g[n-1].weight
+}
+
+// specRound31: round(w * 2^31 / t) with a 128-bit intermediate (for 0 <= w <= t, t >= 1).
+// Opaque: the functions below know it only through the two arithmetic lemmas.
+func specRound31(w, t uint64) uint64 {
+	hi, lo := bits.Mul64(w, 1<<31)
+	lo, carry := bits.Add64(lo, t/2, 0)
+	q, _ := bits.Div64(hi+carry, lo, t)
+	return q
+}
+
+func specBucket(g []Gateway, j int) int {
+	return int(specRound31(uint64(specSum(g, j+1)), uint64(specSum(g, len(g))))) - 1
+}
+
+// specWeightsOK: between 1 and 2^20 gateways, each weight in 1..2^31-1.
+func specWeightsOK(g []Gateway) bool {
+	return len(g) >= 1 && len(g) <= 1<<20 && forall(func(j int) bool { return implies(0 <= j && j < len(g), 1 <= g[j].weight && g[j].weight <= 1<<31-1) })
+}
+
+// specHash: the documented port hash, a function of the two ports only.
+func specHash(lport, rport uint16) int {
+	x := uint32(lport)<<16 | uint32(rport)
+	x ^= x >> 16
+	x *= 0x21f0aaad
+	x ^= x >> 15
+	x *= 0xd35a2d97
+	x ^= x >> 15
+	return int(x) & 0x7FFFFFFF
+}
+
+//@ func divideAndRound
+//@   inline
+//@ func (*Gateway).BucketUpperBound
+//@   inline
+//@ func (*Gateway).Addr
+//@   inline
+
+// ---- lemmas (verified like any function; used through `lemma` clauses) ----
+
+// verifLemmaSums: prefix sums of weights in 1..2^31-1 are bounded and grow
+// with the index (an induction over the gateways, carried by two loops).
+//@ func verifLemmaSums
+//@   props C40
+//@   requires specWeightsOK(g) && 0 <= a && a <= b && b <= len(g)
+//@   ensures[abs] a <= specSum(g, a) && specSum(g, a) <= a*(1<<31-1)
+//@   ensures[rel] specSum(g, a)+(b-a) <= specSum(g, b) && specSum(g, b) <= specSum(g, a)+(b-a)*(1<<31-1)
+//@   assigns nothing
+//@   loop 1 invariant 0 <= k && k <= a && k <= specSum(g, k) && specSum(g, k) <= k*(1<<31-1)
+//@   loop 1 decreases a - k
+//@   loop 2 invariant a <= m && m <= b && a <= specSum(g, a) && specSum(g, a) <= a*(1<<31-1) && specSum(g, a)+(m-a) <= specSum(g, m) && specSum(g, m) <= specSum(g, a)+(m-a)*(1<<31-1)
+//@   loop 2 decreases b - m
+
+func verifLemmaSums(g []Gateway, a, b int) {
+	for k := 0; k < a; k++ {
+	}
+	for m := a; m < b; m++ {
+	}
+}
+
+// verifLemmaRoundMono: the exact rounding is monotone in the numerator,
+// at most 2^31, and exactly 2^31 for the whole weight.
+//@ func verifLemmaRoundMono
+//@   props C40
+//@   reveal specRound31
+//@   requires w1 <= w2 && w2 <= t && 1 <= t && t <= 1<<52
+//@   ensures[mono]  specRound31(w1, t) <= specRound31(w2, t)
+//@   ensures[upper] specRound31(w2, t) <= 1<<31
+//@   ensures[whole] specRound31(t, t) == 1<<31
+//@   assigns nothing
+
+func verifLemmaRoundMono(w1, w2, t uint64) {}
+
+// verifLemmaRoundExact: the code's 64-bit computation is the exact rounding
+// as long as w<<31 does not wrap.
+//@ func verifLemmaRoundExact
+//@   props C40
+//@   reveal specRound31
+//@   requires w <= t && 1 <= t && t <= 1<<32
+//@   ensures[exact] divideAndRound(w<<31, t) == specRound31(w, t)
+//@   assigns nothing
+
+func verifLemmaRoundExact(w, t uint64) {}
+
+//@ func CalculateBucketsForGateways
+//@   props C40
+//@   requires specWeightsOK(gateways)
+//@   ensures[weights] forall(func(j int) bool { return implies(0 <= j && j < len(gateways), gateways[j].weight == old(gateways[j].weight) && gateways[j].addr == old(gateways[j].addr)) })
+//@   ensures[prop]    forall(func(j int) bool { return implies(0 <= j && j < len(gateways), gateways[j].bucketUpperBound == old(specBucket(gateways, j))) })
+//@   ensures[last]    gateways[len(gateways)-1].bucketUpperBound == 1<<31-1
+//@   ensures[mono]    forall(func(j int) bool { return implies(0 <= j && j < len(gateways)-1, gateways[j].bucketUpperBound <= gateways[j+1].bucketUpperBound) })
+//@   ensures[lower]   forall(func(j int) bool { return implies(0 <= j && j < len(gateways), -1 <= gateways[j].bucketUpperBound && gateways[j].bucketUpperBound <= 1<<31-1) })
+//@   lemma[old] verifLemmaSums(gateways, len(gateways), len(gateways))
+//@   lemma verifLemmaRoundMono(uint64(old(specSum(gateways, len(gateways)))), uint64(old(specSum(gateways, len(gateways)))), uint64(old(specSum(gateways, len(gateways)))))
+//@   loop 1 invariant[sum] 0 <= i && i <= len(gateways) && totalWeight == specSum(gateways, i) && i <= totalWeight && totalWeight <= i*(1<<31-1)
+//@   loop 2 lemma[old] verifLemmaSums(gateways, max(i-1, 0), i)
+//@   loop 2 lemma[old] verifLemmaSums(gateways, i, len(gateways))
+//@   loop 2 lemma verifLemmaRoundMono(uint64(old(specSum(gateways, max(i-1, 0)))), uint64(old(specSum(gateways, i))), uint64(old(specSum(gateways, len(gateways)))))
+//@   loop 2 lemma verifLemmaRoundExact(uint64(old(specSum(gateways, i))), uint64(old(specSum(gateways, len(gateways)))))
+//@   loop 2 invariant[sum] 0 <= i && i <= len(gateways) && loopWeight == old(specSum(gateways, i)) && totalWeight == old(specSum(gateways, len(gateways))) && 1 <= totalWeight
+//@   loop 2 invariant[weights] forall(func(j int) bool { return implies(0 <= j && j < len(gateways), gateways[j].weight == old(gateways[j].weight) && gateways[j].addr == old(gateways[j].addr)) })
+//@   loop 2 invariant[prop]    forall(func(j int) bool { return implies(0 <= j && j < i, gateways[j].bucketUpperBound == old(specBucket(gateways, j))) })
+//@   loop 2 invariant[mono]    forall(func(j int) bool { return implies(0 <= j && j < i-1, gateways[j].bucketUpperBound <= gateways[j+1].bucketUpperBound) })
+//@   loop 2 invariant[lower]   forall(func(j int) bool { return implies(0 <= j && j < i, -1 <= gateways[j].bucketUpperBound && gateways[j].bucketUpperBound <= 1<<31-1) })
+
+//@ func hashPacket
+//@   props C40
+//@   requires p != nil
+//@   ensures[range] 0 <= result && result <= 1<<31-1
+//@   ensures[ports] result == specHash(p.LocalPort, p.RemotePort)
+//@   assigns nothing
+
+//@ func BalancePacket
+//@   props C40
+//@   requires fwPacket != nil && len(gateways) >= 1
+//@   ensures[pick]   implies(result1, exists(func(k int) bool { return 0 <= k && k < len(gateways) && result0 == gateways[k].addr && specHash(fwPacket.LocalPort, fwPacket.RemotePort) <= gateways[k].bucketUpperBound && forall(func(j int) bool { return implies(0 <= j && j < k, specHash(fwPacket.LocalPort, fwPacket.RemotePort) > gateways[j].bucketUpperBound) }) }))
+//@   ensures[total]  implies(gateways[len(gateways)-1].bucketUpperBound == 1<<31-1, result1)
+//@   assigns nothing
+//@   loop 1 invariant[scan] 0 <= i && i <= len(gateways) && forall(func(j int) bool { return implies(0 <= j && j < i, hash > gateways[j].bucketUpperBound) })
